@@ -710,6 +710,16 @@ def judge_c10(v: BatView, res: CaseResult, prog):
                 st['waited_for_slot'] += 1
         if not full and abs(start - (last + bt)) <= EPS:
             st['closed_by_timeout'] += 1
+    # requests that were never handed over at all: still unanswered when the harness gave up (64 virtual seconds), in no batch,
+    # sharing nobody's request in flight, and no execution in progress by then
+    if v.pending:
+        unfinished = {b[1] for _, b in v.bstarts if b[1] not in v.bend}
+        in_flight = {k for _, b in v.bstarts if b[1] in unfinished for k, _ in b[2]}
+        stuck = [cid for cid in v.pending if cid in v.calls and cid not in v.where and v.calls[cid][1][2] not in in_flight
+                 and not prog['calls'][cid].get('how')]
+        if stuck and not unfinished:
+            res.violate('C10:late-handover', 'requests were never handed to the batch function although no execution was in progress',
+                        never_batched=stuck[:6])
 
 
 def judge_c11(v: BatView, res: CaseResult, prog):
@@ -849,7 +859,18 @@ class BatcherCheck(Check):
             if self.pid in ('C04', 'C09'):
                 res.violate(f'{self.pid}:hang', f'execution did not finish ({r.verdict})', blocked=r.blocked)
             else:
-                res.inconclusive = f'{r.verdict}: completion is C04\'s subject'
+                if self.pid == 'C10' and r.verdict in ('deadlock', 'timebound'):
+                    # a final state (or one only kept alive by periodic timers): a request that was enqueued, is in no batch and
+                    # shares nobody's pending request, while no execution is in progress, was not handed over in time
+                    open_batches = [b for _, b in v.bstarts if b[1] not in v.bend]
+                    waiting = [cid for cid, (i, c) in v.calls.items() if cid not in v.where and cid not in v.rets]
+                    keys_in_flight = {k for _, b in v.bstarts if b[1] not in v.bend for k, _ in b[2]}
+                    stuck = [cid for cid in waiting if v.calls[cid][1][2] not in keys_in_flight]
+                    if stuck and not open_batches:
+                        res.violate('C10:late-handover', 'requests were never handed to the batch function although no execution '
+                                    'was in progress', never_batched=stuck[:6], verdict=r.verdict)
+                if not res.violations:
+                    res.inconclusive = f'{r.verdict}: completion is C04\'s subject'
         elif self.pid == 'C04':
             judge_c04(v, res)
             multi = [b for _, b in v.bstarts if len(b[2]) >= 2]
